@@ -247,3 +247,40 @@ func parseReferenceTime(c *core.Ctx, r *core.Report) {
 	}
 	r.Floor("ParseConfigFile calls with a reference time", n, 1)
 }
+
+// flagsBehind: the command-line flags whose values can reach v (whole-program sources ending at FlagSet.Get*
+// calls with a constant name).
+func flagsBehind(c *core.Ctx, v ssa.Value, fn *ssa.Function) map[string]bool {
+	out := map[string]bool{}
+	for _, l := range sourcesOf(c, v, fn) {
+		var call *ssa.Call
+		switch x := l.V.(type) {
+		case *ssa.Extract:
+			call, _ = x.Tuple.(*ssa.Call)
+		case *ssa.Call:
+			call = x
+		}
+		if call == nil || !isFlagSetMethod(an.Callee(call)) || !strings.HasPrefix(an.Callee(call).Name(), "Get") {
+			continue
+		}
+		if nm, ok := firstConstString(call.Call.Args[1:]); ok {
+			out[nm] = true
+		}
+	}
+	return out
+}
+
+// paramDescByFlag renders the parameter of fn that carries the value of the given flag ("$name"); when no
+// parameter (or more than one) does, the fallback name is used.
+func paramDescByFlag(c *core.Ctx, fn *ssa.Function, flag, fallback string) string {
+	var found []*ssa.Parameter
+	for _, p := range fn.Params {
+		if flagsBehind(c, p, fn)[flag] {
+			found = append(found, p)
+		}
+	}
+	if len(found) == 1 {
+		return an.ParamDesc(found[0])
+	}
+	return "$" + fallback
+}
